@@ -46,7 +46,7 @@ def _mm(t, many=False, group=False):
     if key not in _MM:
         from textx import metamodel_from_str
 
-        _MM[key] = metamodel_from_str(f"Model: v{'*' if many else ''}={t};", **({"use_regexp_group": True} if group else {}))
+        _MM[key] = metamodel_from_str(f"Model: v{'*' if many else ''}={t};", **({"use_regexp_group": True} if group is True else {}))
     return _MM[key]
 
 
@@ -132,7 +132,22 @@ def _parse(t, text, many=False):
         res2 = ("err", e)
     if res[0] != res2[0] or (res[0] == "ok" and (repr(res[1]), type(res[1])) != (repr(res2[1]), type(res2[1]))):
         _GROUP_DIFFS.append(f"{t} on {text!r}: default {res[0]} {res[1]!r}, use_regexp_group=True {res2[0]} {res2[1]!r}")
+    # a user conversion registered for the base type and then withdrawn (register_obj_processors replaces the set) must
+    # leave the built-in conversion in force
+    mmh = _mm(t, many, "history")
+    try:
+        mmh.register_obj_processors({t: lambda x: "user-conversion"})
+        mmh.register_obj_processors({})
+        res3 = ("ok", mmh.model_from_str(text).v)
+    except TextXError as e:
+        res3 = ("err", e)
+    if res[0] != res3[0] or (res[0] == "ok" and (repr(res[1]), type(res[1])) != (repr(res3[1]), type(res3[1]))):
+        _HIST_DIFFS.append(f"{t} on {text!r}: fresh metamodel {res[0]} {res[1]!r}, after registering and withdrawing a user "
+                           f"processor {res3[0]} {res3[1]!r}")
     return res
+
+
+_HIST_DIFFS = []
 
 
 _GROUP_DIFFS = []
@@ -142,6 +157,8 @@ def evaluate(case):
     out = _evaluate(case)
     while _GROUP_DIFFS:
         out.add("use_regexp_group_changes_base_type_value", _GROUP_DIFFS.pop())
+    while _HIST_DIFFS:
+        out.add("withdrawn_user_processor_still_applied", _HIST_DIFFS.pop())
     return out
 
 
